@@ -250,6 +250,28 @@ func (sessScenario) Gen(r *Rng, tier string, opts map[string]string) interface{}
 		p.Crash = &crashPlan{Kind: []string{"close_server", "close_both"}[r.Intn(2)], AtStep: int64(r.Intn(300)), Twice: r.Chance(1, 3), Flood: 1024 + r.Pick(1, 2, 40)}
 		return p
 	}
+	if prop == "C11" && r.Chance(1, 15) {
+		// the connection write timeout really fires: messages that do not fit any slice class go through the socket,
+		// the socket buffer holds a few bytes and the peer's process is off the CPU for much longer than
+		// ConnectionWriteTimeout. Flush must come back with an error, not stay blocked.
+		p.Cfg.Slices = [][2]uint32{{64, 50}, {256, 50}}
+		p.Cfg.SockBuf = r.Pick(16, 64)
+		p.Cfg.WriteTimeoutMs = r.Pick(50, 200)
+		p.Cfg.Spurious = 0
+		p.Faulty = true
+		p.Sim.PointMean = 0
+		var sp streamPlan
+		total := 0
+		for j := 0; j < 2+r.Intn(3); j++ {
+			n := 300 + r.Intn(600)
+			sp.C2S.W = append(sp.C2S.W, wOp{K: "msg", Pieces: []piece{{K: "rsv", N: n}}})
+			total += n
+		}
+		sp.C2S.R = []rOp{{K: "deadline", N: 30000}, {K: "rb", N: total}, {K: "release"}}
+		p.Streams = append(p.Streams, sp)
+		p.Chaos = []nbOp{{K: "sleep", N: r.Pick(0, 1)}, {K: "stall", N: r.Pick(1000, 3000), Side: 1}}
+		return p
+	}
 	if prop == "C11" && r.Chance(1, 5) {
 		// a deadline that expires at the very instant the awaited data arrives (both timers are due at the same
 		// virtual time), followed by reads with later deadlines: those must not inherit a stale expiry
@@ -705,6 +727,8 @@ type dirState struct {
 	usedShm          bool // some message of this direction travelled through the shared-memory queue
 	usedFallback     bool // ... through the socket
 	shmAfterFallback bool // ... through the queue after an earlier one went through the socket
+	wInFlush         bool          // the writer is inside Flush/Write
+	wFlushSince      time.Duration // ... since this instant
 	closeRunning     bool   // the writer's Close() has been called and has not returned
 	qfAtClose        uint64 // queue-full counter of the session when that Close() started
 }
@@ -1593,6 +1617,7 @@ func (w *sessWorld) writer(ss *sessStream, dir int) {
 			d.allBytes += int64(n)
 			es.inCall[0]++
 			flushStart := simrt.Now()
+			d.wInFlush, d.wFlushSince = true, flushStart
 			var err error
 			if op.K == "write" {
 				var wn int
@@ -1639,8 +1664,12 @@ func (w *sessWorld) writer(ss *sessStream, dir int) {
 				err = st.Flush(false)
 			}
 			es.inCall[0]--
+			d.wInFlush = false
 			now := simrt.Now()
 			simrt.Event("W s%d d%d msg#%d done err=%v fallback=%v", ss.idx, dir, d.msgIdx-1, err, st.inFallbackState)
+			if err == ErrConnectionWriteTimeout {
+				w.probe("flush_conn_write_timeout")
+			}
 			if err == ErrTimeout && w.on("C11") {
 				if d.wDeadline.IsZero() {
 					w.fail("C11.spurious_timeout", "stream %d dir %d: Flush returned a timeout although no write deadline was set", ss.idx, dir)
@@ -2196,6 +2225,12 @@ func (w *sessWorld) quiescenceOracles() {
 			wend, rend := endsOf(dir)
 			res := ss.ends[rend]
 			_ = wend
+			// a writer still inside Flush/Write long after every bound the library has for it (queue-full retries
+			// 100 ms, the write deadline, ConnectionWriteTimeout twice) and after every injected stall has ended
+			if d.wInFlush && now-d.wFlushSince > 60*time.Second+3*w.cli.config.ConnectionWriteTimeout && w.on("C11") && !w.sessionDead() {
+				w.failTagged("C11.flush_hang", w.ctxTags(ss, dir), "stream %d dir %d: Flush has been blocked for %v (ConnectionWriteTimeout %v; everything has been quiet for 10 s)", ss.idx, dir, now-d.wFlushSince, w.cli.config.ConnectionWriteTimeout)
+				return
+			}
 			// a reader still inside a call although what it waits for has happened long ago
 			if d.rInCall && now-d.rBlockedSince > 5*time.Second {
 				avail := d.sureBytes - d.consumed
